@@ -19,7 +19,7 @@ HEAP_MODS = ['pstore', 'lists', 'avalues', 'nextref', 'published', 'nextv', 'vma
 K = '(mkKey {name} {arity})'
 
 add(Contract('engine.YP.atom', 'pure', [('self', 'YP'), ('name', 'Str'), ('module', 'Opt:Any:None')], ret='Term',
-             value='(TAtom {name})', notes='assumed (interning dict not modelled); bounded-checked under C16'))
+             value='(TAtom {name})', notes='abstraction of the atom table; justified by contracts/engine_atom.py (YP.atom verified against the table under C04 and C16)'))
 
 # the constructor API the emitted code calls (spec/literals.smt2 `denote` relies on exactly these equations)
 add(Contract('engine.YP.functor', 'fn', [('self', 'YP'), ('name', 'Str'), ('args', 'TList')], ret='Term',
